@@ -490,10 +490,34 @@ def _stmts_in_F(stmts, fields):
     return True
 
 
+def subscript_rand_programs():
+    """l[k] with k a random field: the element is the one the index selects in the returned solution (index kept in range by its type)"""
+    out = []
+    k_, j_, a_ = F("k"), F("j"), F("a")
+    for n, iw in ((4, 2), (2, 1), (8, 3)):
+        for ety in (("u", 8), ("s", 8)):
+            lf = [["l", "list", list(ety), n, True, False], fld("k", ("u", iw)), fld("j", ("u", iw)), fld("a", ety)]
+            SK, SJ = ["sel", ["l"], k_], ["sel", ["l"], j_]
+            for st in ([E(["==", SK, lit(7)])],
+                       [E(["==", SK, lit(7)]), E(["==", j_, k_])],
+                       [E(["==", SK, lit(7)]), ["foreach", ["l"], "i", [E(["<", ["it", "i"], lit(9)])]], E(["!=", k_, lit(0)])],
+                       [E(["<", SK, SJ]), E(["!=", k_, j_])],
+                       [E(["==", a_, SK]), E([">", a_, lit(100 if ety[0] == "u" else 50)])],
+                       [["if", [[["==", SK, lit(3)], [E(["==", a_, lit(1)])]]], [E(["==", a_, lit(2)])]]],
+                       [E(["==", SK, lit(7)]), E(["==", F("l", 0), lit(1)]), E(["==", F("l", n - 1), lit(2)])] if n > 2 else
+                       [E(["==", SK, lit(7)]), E(["==", F("l", 0), lit(1)])]):
+                out.append({"tag": "subscript_random_index", "desc": "%d x %s%d, %d-bit index: %s" % (n, ety[0], ety[1], iw, st),
+                            "prog": one_class(lf, st), "world": [["top", "obj", "Top"]],
+                            "ops": [["randomize", ["top"]], ["randomize", ["top"]], ["randomize_with", ["top"], [E(["!=", k_, lit(1)])]]]})
+    return out
+
+
 def c01_programs(tier, sd):
     rnd = random.Random(sd)
     out = atomic_programs(tier, rnd) + statement_programs(tier, rnd) + structure_programs(tier, rnd) + constfold_programs(tier, rnd) + \
         rangelist_history_programs(tier, rnd)
+    sr = subscript_rand_programs()
+    out += sr if tier == "thorough" else sr[::3]
     if tier == "thorough":
         out += random_programs(rnd, 12000) + random_struct_programs(rnd, 4000)
     else:
@@ -844,6 +868,8 @@ def c02_programs(tier, sd):
                [E(["<", b_, lit(5)]), E([">", F("l", 1), lit(250)]), E(["<", F("l", 1), b_]), E(["!=", b_, lit(0)])],
                [E(["==", a_, lit(7)]), E(["==", L0, lit(8)]), E(["<=", ["+", a_, lit(0)], L0]), E(["!=", a_, F("n")])]):
         extra.append(spec_single("satedge", "merge through a list subscript %s" % (st,), lf, st, [{"n": v} for v in (0, 4, 5, 7, 200)], calls=("randomize", "randomize_with")))
+    sr = subscript_rand_programs()
+    extra += sr if tier == "thorough" else sr[1::3]
     return constfold_programs(tier, rnd) + unsat_programs(tier, rnd) + sum_edge_programs(tier, rnd) + extra + base + structure_programs(tier, rnd) + rangelist_history_programs(tier, rnd) + \
         random_programs(random.Random(sd + 1), 12000 if tier == "thorough" else 150)
 
